@@ -93,7 +93,10 @@ def make_answers(rng, n, C, prefix):
             alt = tok + 'x'
             owner[alt] = i
             f = rng.choice([0.5, 0.25])
-            answers.append((tok, {'expect': alt, 'grade_decimal': f, 'msg': 'altmsg'}))
+            altd = {'expect': alt, 'grade_decimal': f, 'msg': 'altmsg'}
+            if rng.random() < 0.4:
+                altd['ok'] = rng.choice([True, 'partial', False])      # an explicit ok beside a partial credit has no effect
+            answers.append((tok, altd))
             for j in range(n):
                 table[(tok, 'I%d' % j)] = C[i][j]
                 table[(alt, 'I%d' % j)] = rng.choice(PALETTE)
@@ -116,7 +119,7 @@ def parse_entry(entry):
     return (m.group(1), m.group(2)) if m else (None, None)
 
 
-def check_flat(ctx, key, result, inputs, lists, ordered, partial_credit, wit):
+def check_flat(ctx, key, result, inputs, lists, ordered, partial_credit, wit, rows_expected=None):
     """lists: [(answers, table, owner)], inputs: submitted tokens in box order."""
     n = len(inputs)
     if set(result) != {'overall_message', 'input_list'} or len(result['input_list']) != n:
@@ -128,7 +131,7 @@ def check_flat(ctx, key, result, inputs, lists, ordered, partial_credit, wit):
     for answers, table, owner in lists:
         P = [[eff_credit(answers[i], table, inputs[j]) for j in range(n)] for i in range(n)]
         if ordered:
-            totals.append((sum(P[i][i] for i in range(n)), P))
+            totals.append((sum(P[(rows_expected or list(range(n)))[j]][j] for j in range(n)), P))
         else:
             totals.append((assign.max_profit(P), P))
     best = max(t for t, _ in totals)
@@ -154,8 +157,8 @@ def check_flat(ctx, key, result, inputs, lists, ordered, partial_credit, wit):
     answers, table, owner = lists[li]
     rows = [owner[a] for a, _ in parsed]
     if ordered:
-        if rows != list(range(n)):
-            ctx.violation(key + ':ordered_pairing', 'entry i must grade answer i; got answers %r' % rows, dict(wit, result=result))
+        if rows != (rows_expected or list(range(n))):
+            ctx.violation(key + ':ordered_pairing', 'entry j must grade answer %r; got answers %r' % (rows_expected or 'j', rows), dict(wit, result=result))
             return
     elif len(set(rows)) != n:
         ctx.violation(key + ':not_one_to_one', 'answers used: %r' % rows, dict(wit, result=result))
@@ -221,8 +224,14 @@ def run_flat(ctx):
         debug = rng.random() < 0.15
         if debug:
             ctx.count('debug_list_graders')
+        perm_grouping = None
+        if use_list and rng.random() < 0.5:
+            # every box its own group, boxes listed in another order than the answers: box j is graded by answer/subgrader grouping[j]
+            perm_grouping = list(range(1, n + 1))
+            rng.shuffle(perm_grouping)
+            ctx.count('singleton_group_permutations')
         g = ListGrader(answers=answers[0] if nlists == 1 else tuple(answers), subgraders=subgraders, ordered=ordered,
-                       partial_credit=partial_credit, debug=debug)
+                       partial_credit=partial_credit, debug=debug, **({'grouping': perm_grouping} if perm_grouping else {}))
         base_inputs = ['I%d' % j for j in range(n)]
         perms = list(itertools.permutations(base_inputs))
         if len(perms) > ctx.pick(60, 720):
@@ -247,7 +256,8 @@ def run_flat(ctx):
             if not out.returned:
                 ctx.violation(key + ':raises', repr(out.exc), wit)
                 break
-            best = check_flat(ctx, key, out.value, inputs, lists, ordered, partial_credit, wit)
+            best = check_flat(ctx, key, out.value, inputs, lists, ordered, partial_credit, dict(wit, grouping=perm_grouping),
+                              rows_expected=[g_ - 1 for g_ in perm_grouping] if perm_grouping else None)
             if best is None:
                 break
             bests.add(round(best, 9))
